@@ -8,7 +8,7 @@ git -C /repo worktree add -q --detach "$wt" HEAD || exit 9
 build() { cmake -G Ninja -B "$wt/_build" -S "$wt" -DCMAKE_BUILD_TYPE=RelWithDebInfo >/dev/null 2>&1 && cmake --build "$wt/_build" >/dev/null 2>&1; }
 mkdemo() {
   if [ "$mode" = "SRC" ]; then gcc -O1 -w -DH3_PREFIX= -DH3_ALLOC_PREFIX=demo_ -I"$wt/_build/src/h3lib/include" -I"$wt/src/h3lib/include" -o "$wt/demo" "$demo" "$wt"/src/h3lib/lib/*.c -lm
-  else gcc -O1 -w -I"$wt/_build/src/h3lib/include" -I"$wt/src/h3lib/include" -o "$wt/demo" "$demo" "$wt/_build/lib/libh3.a" -lm; fi; }
+  else gcc -O1 -w -I"$wt/_build/src/h3lib/include" -I"$wt/src/h3lib/include" -o "$wt/demo" "$demo" "$wt/_build/lib/libh3.a" -lm ${EXTRA_LIBS:-}; fi; }
 git -C "$wt" apply "$patch" || { echo "CONFIRM: patch does not apply"; git -C /repo worktree remove --force "$wt"; exit 9; }
 build || { echo "CONFIRM: build with patch FAILED"; git -C /repo worktree remove --force "$wt"; exit 8; }
 tests=$(ctest --test-dir "$wt/_build" -j8 --timeout 900 2>&1 | grep -E "tests passed|tests failed" | tail -1)
